@@ -1,4 +1,5 @@
 import PncProofs.PrefixLemmas
+import PncProofs.C13
 
 /-!
 # C14 — truncated binary files are never silently misread (uamiv memory-mapped reader)
@@ -36,5 +37,177 @@ theorem odd_cut_raises (w : List Word) (extra : Nat) (h1 : 0 < extra) (h2 : extr
       rw [h] at this; simpa using this.symm
     omega
   simp [c1, c2, c3, this]
+
+
+/-! ### slab formats (one3d, humidity, vertical diffusivity, temperature, height/pressure) -/
+
+section slab
+open Slab Props.C13
+
+theorem take_flatten_uniform {α} (n : Nat) : ∀ (ps : List (List α)) (q : Nat), (∀ p ∈ ps, p.length = n) →
+    ps.flatten.take (q * n) = (ps.take q).flatten := by
+  intro ps
+  induction ps with
+  | nil => intro q _; simp
+  | cons a as ih =>
+    intro q h
+    cases q with
+    | zero => simp
+    | succ q =>
+      have ha : a.length = n := h a (by simp)
+      simp only [List.flatten_cons, List.take_succ_cons]
+      rw [Nat.succ_mul, Nat.add_comm, List.take_append, ha]
+      have : n + q * n - n = q * n := by omega
+      rw [this, ih q (fun p hp => h p (by simp [hp]))]
+      have : a.take (n + q * n) = a := by
+        apply List.take_of_length_le; omega
+      rw [this]
+
+theorem takeWhile_take_length {α} (p : α → Bool) : ∀ (l : List α) (q : Nat),
+    ((l.take q).takeWhile p).length = min (l.takeWhile p).length q := by
+  intro l
+  induction l with
+  | nil => intro q; simp
+  | cons a as ih =>
+    intro q
+    cases q with
+    | zero => simp
+    | succ q =>
+      simp only [List.take_succ_cons, List.takeWhile_cons]
+      by_cases hp : p a = true
+      · simp only [hp, if_true, List.length_cons, ih q]
+        omega
+      · simp [hp]
+
+theorem leading_take (l : List (List Word)) (q : Nat) : leading (l.take q) = min (leading l) q := by
+  cases l with
+  | nil => simp [leading]
+  | cons r rest =>
+    cases q with
+    | zero => simp [leading]
+    | succ q =>
+      simp only [List.take_succ_cons, leading, takeWhile_take_length]
+      omega
+
+/-- **C14 for the slab formats**: for every well-formed file and EVERY word offset `n` at which it can be cut,
+the memory-mapped reader either rejects the prefix or the prefix is exactly the first `j ≥ 2` complete time
+steps and the reader presents exactly those steps (any grid, layer count, payload; all three layouts).
+(Cuts inside a word cannot be mapped as float32 at all: numpy raises — checked by the correspondence.) -/
+theorem slab_prefix_safe (k : Kind) (f : SFile) (h : WF f) (n : Nat) (hn : n ≤ (encode f).length) :
+    mmDecode k f.cells ((encode f).take n) = none ∨
+    ∃ j, 2 ≤ j ∧ j ≤ f.steps.length ∧ (encode f).take n = encode { f with steps := f.steps.take j } ∧
+      mmDecode k f.cells ((encode f).take n) = viewOf k { f with steps := f.steps.take j } := by
+  obtain ⟨s0, s1, rest, hst, hne, hm⟩ := h.two
+  have hsame : ∀ s ∈ f.steps, s.slabs.length = s0.slabs.length :=
+    fun s hs => h.same s hs s0 (by rw [hst]; simp)
+  have hL : 0 < f.cells + 4 := by omega
+  have hlenpre : ((encode f).take n).length = n := by simp [List.length_take, hn]
+  by_cases hmod : n % (f.cells + 4) = 0
+  · -- a whole number q of records
+    obtain ⟨q, hq⟩ : ∃ q, n = q * (f.cells + 4) := ⟨n / (f.cells + 4), by
+      have := Nat.div_add_mod n (f.cells + 4); rw [hmod] at this; rw [Nat.mul_comm]; omega⟩
+    have hrows : ∀ p ∈ (f.steps.map framedStep).flatten, p.length = f.cells + 4 := by
+      intro p hp
+      obtain ⟨fs, hfs, hp'⟩ := List.mem_flatten.mp hp
+      obtain ⟨s, hs, rfl⟩ := List.mem_map.mp hfs
+      obtain ⟨c, hc, rfl⟩ := mem_framedStep hp'
+      rw [frame_len, h.cells s hs c hc]
+    have hpre : (encode f).take n = (((f.steps.map framedStep).flatten).take q).flatten := by
+      rw [encode_eq, hq]
+      exact take_flatten_uniform (f.cells + 4) _ q hrows
+    -- the number of records in the file
+    have htot := flatten_length f.steps s0.slabs.length hsame
+    have hnsteps : f.steps.length = rest.length + 2 := by rw [hst]; simp
+    by_cases hdec : mmDecode k f.cells ((encode f).take n) = none
+    · exact Or.inl hdec
+    · right
+      -- unfold the guards that were passed
+      have hchunk : chunk (f.cells + 4) ((encode f).take n) ((encode f).take n).length =
+          ((f.steps.map framedStep).flatten).take q := by
+        rw [hpre]
+        apply chunk_flatten (f.cells + 4) hL _ _ _ (Nat.le_refl _)
+        intro p hp
+        exact hrows p (List.mem_of_mem_take hp)
+      have hlead : leading (((f.steps.map framedStep).flatten).take q) = min s0.slabs.length q := by
+        rw [leading_take, leading_eq f h s0 s1 rest hst hne hm]
+      have hqle : q ≤ ((f.steps.map framedStep).flatten).length := by
+        have : n ≤ ((f.steps.map framedStep).flatten).length * (f.cells + 4) := by
+          have hl : (encode f).length = ((f.steps.map framedStep).flatten).length * (f.cells + 4) := by
+            rw [encode_eq]
+            have : ∀ (ps : List (List Word)), (∀ p ∈ ps, p.length = f.cells + 4) →
+                ps.flatten.length = ps.length * (f.cells + 4) := by
+              intro ps
+              induction ps with
+              | nil => intro _; simp
+              | cons a as ih =>
+                intro hp
+                simp only [List.flatten_cons, List.length_append, List.length_cons, hp a (by simp),
+                  ih (fun x hx => hp x (by simp [hx]))]
+                rw [Nat.succ_mul]; omega
+            exact this _ hrows
+          rw [← hl]; exact hn
+        rw [hq] at this
+        exact Nat.le_of_mul_le_mul_right this hL
+      have hrl : (((f.steps.map framedStep).flatten).take q).length = q := by
+        rw [List.length_take]; omega
+      -- the guards
+      have hguard : ¬ (min s0.slabs.length q = 0 ∨ min s0.slabs.length q = q ∨ q % (min s0.slabs.length q) ≠ 0) := by
+        intro hg
+        apply hdec
+        unfold mmDecode
+        rw [if_neg (by rw [hlenpre]; simpa using hmod), hchunk]
+        unfold mmRows
+        simp only [hlead, hrl]
+        rw [if_pos hg]
+      have hq1 : s0.slabs.length < q := by
+        by_contra hc
+        apply hguard
+        right; left
+        omega
+      have hmin : min s0.slabs.length q = s0.slabs.length := by omega
+      rw [hmin] at hguard
+      have hdiv : q % s0.slabs.length = 0 := by
+        by_contra hc
+        exact hguard (Or.inr (Or.inr hc))
+      obtain ⟨j, hj⟩ : ∃ j, q = j * s0.slabs.length := ⟨q / s0.slabs.length, by
+        have := Nat.div_add_mod q s0.slabs.length; rw [hdiv] at this; rw [Nat.mul_comm]; omega⟩
+      have hj2 : 2 ≤ j := by
+        by_contra hc
+        have : j = 0 ∨ j = 1 := by omega
+        rcases this with rfl | rfl <;> simp at hj <;> omega
+      have hjle : j ≤ f.steps.length := by
+        rw [htot, hj] at hqle
+        rw [Nat.mul_comm] at hqle
+        exact Nat.le_of_mul_le_mul_left hqle hm
+      -- the prefix is the encoding of the first j steps
+      have hsteps : (((f.steps.map framedStep).flatten).take q) = ((f.steps.take j).map framedStep).flatten := by
+        rw [hj]
+        have := take_flatten_uniform s0.slabs.length (f.steps.map framedStep) j (by
+          intro p hp
+          obtain ⟨s, hs, rfl⟩ := List.mem_map.mp hp
+          rw [framedStep_length, hsame s hs])
+        rw [this, List.map_take]
+      have henc : (encode f).take n = encode { f with steps := f.steps.take j } := by
+        rw [hpre, hsteps, encode_eq]
+      refine ⟨j, hj2, hjle, henc, ?_⟩
+      rw [henc]
+      -- well-formedness of the truncated file
+      have hwf : WF { f with steps := f.steps.take j } := by
+        refine ⟨?_, ?_, ?_⟩
+        · intro s hs c hc
+          exact h.cells s (List.mem_of_mem_take hs) c hc
+        · intro s hs s' hs'
+          exact h.same s (List.mem_of_mem_take hs) s' (List.mem_of_mem_take hs')
+        · refine ⟨s0, s1, rest.take (j - 2), ?_, hne, hm⟩
+          show f.steps.take j = _
+          rw [hst]
+          obtain ⟨j', rfl⟩ : ∃ j', j = j' + 2 := ⟨j - 2, by omega⟩
+          simp
+      exact mm_decode_encode k { f with steps := f.steps.take j } hwf
+  · left
+    unfold mmDecode
+    rw [if_pos (by rw [hlenpre]; simpa using hmod)]
+
+end slab
 
 end Props.C14
